@@ -388,3 +388,18 @@ func (p *Path) xfToIntegral(x XF, mode int) XF {
 	}
 	return XF{exact: d}
 }
+
+// decimalDigits returns the number of characters %d prints for the
+// non-negative integer t, forking over the feasible digit counts.
+func (p *Path) decimalDigits(t *smt.Term) int {
+	if p.branch(smt.ILt(t, smt.ConstIntU(0))) {
+		p.abortf("decimalDigits: negative operand")
+	}
+	for nd := 1; nd <= 20; nd++ {
+		if p.branch(smt.ILt(t, smt.ConstInt(bigPow10(nd)))) {
+			return nd
+		}
+	}
+	p.abortf("decimalDigits: more than 20 digits")
+	return 0
+}
